@@ -496,6 +496,7 @@ func checkC11(c *ev.Ctx) {
 	}
 	wg.Wait()
 	close(done)
+	c11Big(c)
 	if thorough(c) && c.ReplayOf == "" {
 		nativeFuzz(c)
 	}
@@ -607,6 +608,67 @@ func feedReader(kind string, in []byte, dict int) (outcome, violation, what stri
 		return "read:" + errBucket(rerr), "", ""
 	}
 	return "limit-1MiB", "", ""
+}
+
+// c11Big feeds a fixed list of inputs whose hostility is their amount: tens of MiB of
+// stream padding, hundreds of thousands of empty streams, one-byte blocks and one-byte
+// chunks. What a reader does once per padding word, stream, block or chunk (a recursion, an
+// append, a counter) only shows at such counts. A stack overflow ends the process; the
+// check script turns that into the violation.
+func c11Big(c *ev.Ctx) {
+	small := libWriteXZ(xz.WriterConfig{}, []byte("a small valid stream\n"))
+	// (4 KiB dictionary: the reader allocates and clears the declared dictionary once per
+	// block, so that the default 8 MiB make a chain of empty streams cost 3 ms per 32 bytes)
+	empty := libWriteXZ(xz.WriterConfig{DictCap: 4096}, nil)
+	zeros := func(n int) []byte { return make([]byte, n) }
+	cat := func(parts ...[]byte) []byte {
+		var b []byte
+		for _, p := range parts {
+			b = append(b, p...)
+		}
+		return b
+	}
+	type big struct {
+		id    string
+		kinds []string
+		mk    func() []byte
+	}
+	nb := 200000
+	list := []big{
+		{"pad48M", []string{"xz", "xz-single"}, func() []byte { return cat(small, zeros(48<<20)) }},
+		{"pad40M-stream", []string{"xz"}, func() []byte { return cat(small, zeros(40<<20), small) }},
+		{"pad40M-garbage", []string{"xz"}, func() []byte { return cat(small, zeros(40<<20), []byte{1, 0, 0, 0}) }},
+		{"zeros48M", []string{"xz", "lzma2"}, func() []byte { return zeros(48 << 20) }},
+		{"empty-streams", []string{"xz"}, func() []byte { return bytes.Repeat(empty, 400000) }},
+		{"one-byte-blocks", []string{"xz", "xz-single"}, func() []byte {
+			return libWriteXZ(xz.WriterConfig{BlockSize: 1, DictCap: 4096, CheckSum: xz.None}, bytes.Repeat([]byte{'b'}, nb))
+		}},
+		{"one-byte-chunks", []string{"lzma2"}, func() []byte {
+			b := []byte{1, 0, 0, 'c'}
+			for i := 1; i < 300000; i++ {
+				b = append(b, 2, 0, 0, 'c')
+			}
+			return append(b, 0)
+		}},
+	}
+	par(len(list), func(i int) {
+		k := list[i]
+		id := "big-" + k.id
+		noteCase(id)
+		if !want(c, id) {
+			return
+		}
+		in := k.mk()
+		for _, kind := range k.kinds {
+			oc, viol, what := feedReader(kind, in, 4096)
+			c.Eval(kind+"|"+id+"|"+oc, true)
+			c.Count("large_inputs", 1)
+			if viol != "" {
+				c.Violation(viol, map[string]any{"case_id": id, "reader": kind, "what": what, "input_len": len(in), "input_head": ev.Hex(in, 256)})
+			}
+			c.Sample(map[string]any{"reader": kind, "large_input": k.id, "input_len": len(in), "outcome": oc})
+		}
+	})
 }
 
 func panicClass(s string) string {
